@@ -264,7 +264,7 @@ pub fn decode_cev(b: &[u8], kind: crate::pool::CEv) -> R<CEvMsg> {
     let mut cur = Cur::new(b);
     let mut m = CEvMsg::default();
     match kind {
-        CEv::Ord => m.seq = cur.varint()? as u32,
+        CEv::Ord | CEv::Unord | CEv::Unrel => m.seq = cur.varint()? as u32,
         CEv::Map => {
             m.seq = cur.varint()? as u32;
             m.ent = Some(cur.serde_entity()?);
